@@ -34,7 +34,7 @@ PROPS = {
     "C12": dict(
         lean_modules=["Enc.Props.C12"],
         variants=V_DEFAULT, areas=["proto."], allowed_native=["Enc.Lemmas.Proto"],
-        main_theorem="Enc.Props.C12.struct_bytes(_maps), reference_decodes_marshal(_partial, _maps_partial), unmarshal_of_reference_decode, unmarshal_iff_reference_decode",
+        main_theorem="Enc.Props.C12.struct_bytes(_maps), reference_decodes_marshal(_partial, _maps_partial), unmarshal_of_reference_decode(_maps_partial), unmarshal_iff_reference_decode",
         rule="random message types x values: (1) Marshal's bytes decoded by the Lean reference decoder (written from the protobuf "
              "encoding spec) must give the same field values; (2) legal re-encodings built by an independent wire-level "
              "re-encoder (field order shuffled, non-minimal varints in tags/lengths/values, embedded messages split in two "
@@ -172,13 +172,13 @@ PROPS = {
         assumptions=["template generation avoids zero map values and NaN/Inf/-0 (not representable / documented no-ops)"],
     ),
     "C01": dict(
-        lean_modules=["Enc.Props.C01"],
+        lean_modules=["Enc.Props.C01", "Enc.Props.C01Fields"],
         variants=V_DEFAULT, areas=["json.encoder", "json.escapeIndex", "json.formatInteger", "json.appendInt", "json.appendUint", "json.constructCodec",
                                    "json.appendStructFields", "json.emptyFuncOf", "json.inlined", "json.constructMapCodec", "json.Marshal", "json.Append",
                                    "json.Encoder", "json.Escape", "json.AppendEscape", "json.appendCompactEscapeHTML", "json.constructStructType",
                                    "json.below", "json.contains", "json.expand", "json.escapeByteRepr", "json.isValidTag", "json.intStringsAreSorted"],
         allowed_native=["Enc.Lemmas.Json", "Lemmas.Json"],
-        main_theorem="Enc.Props.C01.encodeString_eq, formatInteger_eq, appendInt_eq (scalar encoders = encoding/json's appendString / strconv decimal, for every input)",
+        main_theorem="Enc.Props.C01.encodeString_eq, formatInteger_eq, appendInt_eq (scalar encoders = encoding/json's appendString / strconv decimal, for every input); Enc.Props.C01Fields.segFields_eq_stdFields(_of_shadowingOnly) (struct-field resolution of appendStructFields = encoding/json's dominance rule on every struct-type tree without visible name collisions)",
         rule="(a) scalar layer through the Lean driver: strings with an escapable byte at every offset 0..24 relative to the 8-byte "
              "scan x {EscapeHTML on/off}, U+2028/9 and invalid UTF-8 forms, random strings; integers at every power of 2 and 10 "
              "boundary; Escape/AppendEscape; Duration. (b) type-directed differential vs encoding/json: random types built with "
@@ -192,12 +192,12 @@ PROPS = {
         assumptions=["the struct-field resolution / codec construction layer is decided by differential testing, not by theorem"],
     ),
     "C02": dict(
-        lean_modules=["Enc.Props.C02"],
+        lean_modules=["Enc.Props.C02", "Enc.Props.C01Fields"],
         variants=V_DEFAULT, areas=["json.decoder", "json.Parse", "json.Unmarshal", "json.Decoder", "json.constructCodec", "json.constructMapCodec",
                                    "json.constructStructType", "json.appendStructFields", "json.hasNullPrefix", "json.appendToLower", "json.foldRune",
                                    "json.skipSpaces", "json.appendRune", "json.appendCoerceInvalidUTF8", "json.internalParseFlags"],
         allowed_native=["Enc.Lemmas.Json", "Lemmas.Json"],
-        main_theorem="Enc.Props.C02.unmarshalInt_eq, unmarshalString_eq (scalar decoders as coded = transcription of encoding/json literalStore / unquoteBytes, for every document)",
+        main_theorem="Enc.Props.C02.unmarshalInt_eq, unmarshalString_eq (scalar decoders as coded = transcription of encoding/json literalStore / unquoteBytes, for every document); Enc.Props.C01Fields.lookupKey_eq (the field an object key is stored into = the field encoding/json chooses, exact-name layer)",
         rule="(a) scalar layer through the Lean driver: integer literals at every width boundary +-1, 19/20-digit values around the "
              "wrap-around points of value*10+x, leading zeros, floats into integers, random 64-bit magnitudes, into all ten integer "
              "types (model = implementation = transcription of encoding/json's literalStore); string literals with every escape, "
